@@ -91,6 +91,9 @@ func waitStop(w *world) string {
 }
 
 func c17Random(c *Case, rng *Rng, stopAt int) {
+	if tooManyHangs(c) {
+		return
+	}
 	w := newWorld(c, fmt.Sprintf("c17-%d", c.Idx))
 	defer w.close()
 	next := 10
@@ -158,6 +161,16 @@ func c17Random(c *Case, rng *Rng, stopAt int) {
 			break
 		}
 	}
+	// every worker that was started has exited by now (at most 5 own steps and one handler return each)
+	if w.bad == "" {
+		var started []int
+		for _, n := range w.order {
+			if w.qs[n].at != "-" {
+				started = append(started, n)
+			}
+		}
+		c.Oracle(fmt.Sprintf("terminated q=%s ev=%s", joinInts(started), w.traceStr()))
+	}
 	// late events and late starts: nothing may run any more
 	deliver()
 	for _, n := range w.order {
@@ -191,11 +204,19 @@ func c17Random(c *Case, rng *Rng, stopAt int) {
 	}
 	w.oracleLog()
 	if rng.Chance(20) {
+		exitedAll := len(w.order) > 0
+		for _, n := range w.order {
+			if w.qs[n].at != "exit" {
+				exitedAll = false
+			}
+		}
 		ans := waitStop(w)
 		c.Op("allStopped", ans)
 		if ans == "true" {
 			c.Oracle(fmt.Sprintf("stopped q=%s ev=%s", w.names(), w.traceStr()))
 		}
+		// WaitStopWithTimeout returns ahead of its timeout exactly when every queue worker has exited
+		c.Oracle(fmt.Sprintf("waitreturns exited=%v early=%s", exitedAll, ans))
 		c.Note("waitstop:" + ans)
 	}
 	c.Nontrivial = len(w.trace) >= 6
@@ -247,7 +268,7 @@ func c17SelectRace(c *Case, backoff bool, tries int) {
 		}
 		w.close()
 		last = sub
-		if br == "tick" {
+		if br == "tick" || w.bad != "" {
 			break
 		}
 	}
